@@ -303,10 +303,21 @@ def run(ctx):
                 "extra.enumerated, seeded random schedules (uniform / bursty / starving) for pools up to 16 and up to 40 tasks, "
                 "plus `free <seed> <history>` lines on real threads with seeded random yields; a case is distinct by its full "
                 "line; non-trivial = it contains a pooled dispatch (pool alive and n >= 2)")
+    import time
+    stage, t0 = {}, [time.time()]
+
+    def lap(name):
+        stage[name] = round(time.time() - t0[0], 2)
+        t0[0] = time.time()
+        ctx.extra["stage_seconds"] = stage
+
     ctx.lean_props(THEOREMS)
+    lap("lean_props")
     drv = ctx.driver("drv_c03")
+    lap("driver_build")
     impl = ctx.harness("harness/cc/c03_pool.cc", "c03_pool",
                        deps=["harness/cc/c03_sched_shim.h", ENGINE_THREAD])
+    lap("harness_build")
 
     # ---- T(i): memory-order table extracted from the tree vs the table the model states
     try:
@@ -344,6 +355,7 @@ def run(ctx):
     fl = free_lines(ctx, 400 if thorough else 40)
     nfree = len(fl)
     lines = recorded + lines + rl + fl + MALFORMED
+    lap("generate")
     ctx.extra["enumerated"] = enum_info
     ctx.extra["exhaustive_small_scope"] = ("every complete schedule with at most the stated number of preemptions (the running "
                                            "thread is switched out only when blocked / spinning / done, except at the counted "
@@ -353,6 +365,7 @@ def run(ctx):
 
     # ---- run the implementation once (parallel processes), then model vs implementation
     outputs, problems = run_impl(impl, lines, 6, 3000 if thorough else 900)
+    lap("implementation_run")
     seen = {}
     for kind, line, detail in problems:
         ctx.oracle_failure("c03:" + kind, detail, {"line": line, "replay": "echo '%s' | %s" % (line, impl)})
@@ -385,6 +398,7 @@ def run(ctx):
         except OSError:
             pass
 
+    lap("model_run_and_diff")
     # ---- S: oracle on the implementation's own output; dynamic memory orders
     dyn, nsteps, maxlen = set(), 0, 0
     for l, o in zip(lines, outputs):
@@ -400,6 +414,7 @@ def run(ctx):
             maxlen = max(maxlen, k)
     ctx.oblige("memory orders observed while running equal the extracted table", "translator",
                dyn <= static_set and (not static_set or bool(dyn)), "observed-but-not-extracted: %r" % sorted(dyn - static_set))
+    lap("oracle")
     ctx.extra["oracle_checked"] = sum(1 for o in outputs if o is not None)
     ctx.extra["oracle_failures"] = seen
     ctx.extra["replayed_events_total"] = nsteps
